@@ -61,6 +61,20 @@
 #ifdef STUB_GETQ
 static int verif_stub_get_from_outpacketq(int userid);
 #endif
+/* identity on the userid taken from the request; the harness case-splits on its value here */
+#ifndef H_UID_CASE
+#define H_UID_CASE 0
+#endif
+static int verif_uid(int x)
+{
+#if H_UID_CASE == 0
+	__CPROVER_assume(x == 0);
+	return 0;
+#else
+	__CPROVER_assume(x != 0);
+	return x;
+#endif
+}
 #ifdef STUB_HELPERS
 struct query; struct dnsfd;
 static int verif_stub_send_chunk_or_dataless(int dns_fd, int userid, struct query *q);
@@ -287,7 +301,7 @@ void login_calculate(char *buf, int buflen, const char *pass, int seed)
 	for (i = 0; i < 16; i++)
 		buf[i] = g_login_out[i];
 }
-static int g_fau_ret;
+static int g_fau_ret, g_fau_taken;
 int find_available_user(void)
 {
 	/* contract proved in group find_available_user: -1 or a slot that was unused/expired, reset */
@@ -297,6 +311,7 @@ int find_available_user(void)
 	__CPROVER_assume((!users[0].active || users[0].last_pkt + 60 < g_now) && !users[0].disabled);
 	users[0].active = 1; users[0].authenticated = 0; users[0].authenticated_raw = 0; users[0].options_locked = 0;
 	users[0].last_pkt = g_now; users[0].fragsize = 4096; users[0].conn = CONN_DNS_NULL;
+	g_fau_taken = 1;
 	return 0;
 }
 void user_switch_codec(int userid, const struct encoder *enc) { if (userid < 0 || userid >= 1) return; users[userid].encoder = enc; }
@@ -391,7 +406,7 @@ static struct query g_q;
 
 /* representation invariant of a session slot (what every handler may rely on and must keep) */
 #define SESSION_WF(u) ((u).last_pkt >= 0 && (u).last_pkt < (1L << 40) && \
-	(u).inpacket.len >= 0 && (u).inpacket.offset >= 0 && (u).inpacket.offset <= (u).inpacket.len && (u).inpacket.len <= (int)sizeof((u).inpacket.data) && \
+	(u).inpacket.len >= 0 && (u).inpacket.offset == (u).inpacket.len /* both advance and reset together */ && (u).inpacket.len <= (int)sizeof((u).inpacket.data) && \
 	(u).outpacket.len >= 0 && (u).outpacket.len <= (int)sizeof((u).outpacket.data) && (u).outpacket.offset >= 0 && (u).outpacket.offset <= (u).outpacket.len && \
 	(u).outpacket.sentlen >= 0 && (u).outpacket.sentlen <= (u).outpacket.len - (u).outpacket.offset && \
 	(u).fragsize >= 2 && (u).fragsize <= 65535 && (u).outfragresent >= 0 && (u).outfragresent <= 7 && \
@@ -401,7 +416,7 @@ static struct query g_q;
 	(u).dnscache_lastfilled >= 0 && (u).dnscache_lastfilled < DNSCACHE_LEN && \
 	(u).qmemping_lastfilled >= 0 && (u).qmemping_lastfilled < QMEMPING_LEN && (u).qmemdata_lastfilled >= 0 && (u).qmemdata_lastfilled < QMEMDATA_LEN && \
 	(u).hostlen <= sizeof(struct sockaddr_storage) && (u).q.fromlen <= sizeof(struct sockaddr_storage) && (u).q_sendrealsoon.fromlen <= sizeof(struct sockaddr_storage) && \
-	(u).q.fromlen2 <= sizeof(struct sockaddr_storage) && (u).q_sendrealsoon.fromlen2 <= sizeof(struct sockaddr_storage))
+	((u).q.id2 == 0 || (u).q.fromlen2 <= sizeof(struct sockaddr_storage)) && ((u).q_sendrealsoon.id2 == 0 || (u).q_sendrealsoon.fromlen2 <= sizeof(struct sockaddr_storage)))
 
 static void any_server_state(void)
 {
@@ -419,6 +434,7 @@ static void any_server_state(void)
 	debug = 0;
 	__CPROVER_havoc_object(&g_q);
 	g_q.name[255] = 0;
+	g_q.id2 = 0;                               /* dns_decode clears id2 of every received query (asserted in group dns_decode_query) */
 	__CPROVER_assume(g_q.fromlen <= sizeof(struct sockaddr_storage));
 	g_answers = 0; g_tun_writes = 0; g_raw_sends = 0; g_sendto = 0; g_b32_n = 0; g_login_calls = 0;
 }
@@ -463,9 +479,6 @@ static struct snap take_snap(void)
 	slot.inpacket.seqno == (s).in_seq && slot.inpacket.fragment == (s).in_frag && slot.outpacket.seqno == (s).out_seq && slot.outpacket.fragment == (s).out_frag && \
 	slot.q.id == (s).q_id && slot.q_sendrealsoon.id == (s).qs_id)
 
-#ifndef H_UID_CASE
-#define H_UID_CASE 0          /* 0: the decoded userid is literally 0; 1: any other value */
-#endif
 static int case_uid(void)
 {
 #if H_UID_CASE == 0
@@ -714,10 +727,11 @@ void h_cmd_version(void)
 	int domain_len = set_cmd();
 	g_unpack0 = (signed char)nondet_int(); g_unpack_ret = nondet_int();
 	g_fau_ret = nondet_bool() ? 0 : -1;
+	g_fau_taken = 0;
 	struct snap s0 = take_snap();
 	_Bool reusable = (!slot.active || slot.last_pkt + 60 < g_now) && !slot.disabled;
 	handle_null_request(7, 8, (struct dnsfd *)0, &g_q, domain_len);
-	_Bool taken = slot.seed != s0.seed || slot.q.id != s0.q_id || slot.hostlen != s0.hostlen || slot.fragsize != s0.fragsize || slot.active != s0.active || slot.conn != s0.conn;
+	_Bool taken = g_fau_taken;        /* the slot was handed out by find_available_user */
 	/* C03: a new challenge always comes with a cleared login; V never sets the login flags */
 	__CPROVER_assert(slot.authenticated == 0 || (slot.authenticated == s0.authenticated && slot.seed == s0.seed), "a version request never authenticates, and a new challenge clears the login");
 	__CPROVER_assert(slot.authenticated_raw == 0 || (slot.authenticated_raw == s0.authenticated_raw && slot.seed == s0.seed), "a new challenge clears the raw login");
